@@ -53,6 +53,7 @@ type rollCfg struct {
 	lands    []time.Duration // where in the next interval a clock tick may land (default: 1ms after the boundary)
 	interval time.Duration   // rotation interval (default: one hour)
 	skew     time.Duration   // != 0: writes are Append calls of events stamped clock+skew (the appender's clock is the wall clock, not the event)
+	tail     []string        // written by the main thread, one at a time, after every writer has finished (and before Stop)
 }
 
 // idLayout formats an event as its tag (which carries the write's id) plus a line break.
@@ -172,6 +173,12 @@ func (c rollCfg) run(o *rollObs) {
 		})
 	}
 	zzvrt.WaitUntil(func() bool { return done == len(c.writers) })
+	for _, id := range c.tail {
+		w := &rollWrite{id: id, startAt: x.Now, startStep: x.Steps, ticksAtBeg: ticksUsed(x), tid: zzvrt.ThreadID()}
+		o.writes = append(o.writes, w)
+		a.Write([]byte(id + "\n"))
+		w.endAt, w.endStep, w.returned, w.ticksAtEnd = x.Now, x.Steps, true, ticksUsed(x)
+	}
 	// quiescent: no write in progress (the retention goroutine may still be running)
 	o.fdsQ = append(o.fdsQ, x.FS.OpenCount(rollDir))
 	a.Stop()
@@ -322,6 +329,9 @@ func rollCheck(prop string, c rollCfg, o *rollObs, x *zzvrt.Exec) (string, []zzv
 		case len(locs) == 0:
 			if !faulted || c.openOnly {
 				add("C13", "write-lost", k, fmt.Sprintf("write %q is in no file (files=%v; failed creations: %v)", w.id, names, faulted))
+				if o.stopped {
+					add("C05", "not-flushed", k, fmt.Sprintf("write %q was accepted before Stop and is readable from no file after it (files=%v; failed creations: %v)", w.id, names, faulted))
+				}
 			}
 			if !faulted {
 				add("C19", "write-lost", k, fmt.Sprintf("write %q is in no file although no I/O fault was injected", w.id))
@@ -334,8 +344,16 @@ func rollCheck(prop string, c rollCfg, o *rollObs, x *zzvrt.Exec) (string, []zzv
 			if w.endAt.Before(ft) {
 				add("C13", "file-from-the-future", k, fmt.Sprintf("write %q completed at %s but is in %s", w.id, w.endAt.Format("150405"), locs[0]))
 			}
-			if len(c.writers) == 1 && !faulted && ft.Before(w.startAt.Truncate(c.iv()).Truncate(time.Second)) /* names have one-second resolution */ {
-				add("C13", "stale-file", k, fmt.Sprintf("single writer: write %q issued at %s landed in %s (an earlier interval)", w.id, w.startAt.Format("150405"), locs[0]))
+			// "issued one at a time": no other write call is in progress at any moment of this one (always so for a single
+			// writer; with several writers, the calls made while the others are between calls or done)
+			alone := true
+			for _, u := range o.writes {
+				if u != w && !(u.returned && u.endStep <= w.startStep) && !(u.startStep >= w.endStep && w.returned) {
+					alone = false
+				}
+			}
+			if alone && !faulted && ft.Before(w.startAt.Truncate(c.iv()).Truncate(time.Second)) /* names have one-second resolution */ {
+				add("C13", "stale-file", k, fmt.Sprintf("write %q was issued at %s with no other write in progress and landed in %s (an earlier interval)", w.id, w.startAt.Format("150405"), locs[0]))
 			}
 		}
 		if !w.returned {
@@ -482,6 +500,8 @@ func init() {
 		reg(prop, rollCfg{writers: [][]string{{"a0", "a1"}, {"b0", "b1"}}}, "qt", bb{2, 2, 0}, bb{3, 3, 0})
 		reg(prop, rollCfg{writers: [][]string{{"a0"}, {"b0"}, {"c0"}}}, "t", bb{2, 2, 0}, bb{2, 3, 0})
 	}
+	// one writer in flight across a boundary while the other rotates, then calls one at a time in the new interval
+	reg("C13", rollCfg{writers: [][]string{{"a0", "a1"}, {"b0"}}, tail: []string{"z0", "z1"}, variant: "then-one-at-a-time"}, "qt", bb{2, 2, 0}, bb{3, 2, 0})
 	// C13 in a process whose local zone is west / east of UTC (file names are local wall-clock time; whoever reads
 	// them back has to read them in the same zone) with a maximum age smaller than the zone's offset: the
 	// retention cleanup that follows every rotation leaves the live file and everything just written alone
@@ -499,6 +519,8 @@ func init() {
 	for _, ivl := range []time.Duration{1500 * time.Millisecond, 2500 * time.Millisecond, 90 * time.Second, 150 * time.Minute} {
 		reg("C13", rollCfg{writers: [][]string{{"a0", "a1", "a2", "a3"}}, interval: ivl, lands: []time.Duration{0, time.Millisecond}}, "qt", bb{0, 3, 0}, bb{1, 3, 0})
 	}
+	// C05 when file creations fail at up to two (thorough three) boundaries in a row: what was accepted is readable after Stop, no descriptor is left
+	reg("C05", rollCfg{writers: [][]string{{"a0", "a1", "a2", "a3"}}, openOnly: true, variant: "failed-creations"}, "qt", bb{1, 3, 2}, bb{2, 3, 3})
 	// C05 when fsync fails (at a rotation or at Stop): the descriptor is closed all the same
 	reg("C05", rollCfg{writers: [][]string{{"a0", "a1", "a2"}}, syncOnly: true}, "qt", bb{1, 2, 2}, bb{2, 3, 2})
 	reg("C05", rollCfg{writers: [][]string{{"a0", "a1"}}, restart: true, syncOnly: true}, "qt", bb{1, 2, 2}, bb{2, 2, 2})
